@@ -332,6 +332,8 @@ prop("C12", bounds="bounded file of 64 pages, events of 2009 / 993 / 4980 bytes 
      harnesses=[
          H("pq.VerifQueueFull", "full file: error instead of loss, read+ACK succeed, buffered events flushed later in order, space bound after full ACK, second fill cycle as large as the first", "3 sizes x 2 ACK steps x 2 cycles",
            thorough={"params": {"wbuf": 8192}}),
+         H("pq.VerifQueueAckFullFile", "the queue shares the file with other data that uses up every free data and meta page: the writer reports the full file, reading and ACK still succeed (clean-up may use the overflow area), the freed space lets the buffered event be flushed",
+           "9 / 13 events of 400 bytes, foreign pages allocated and updated one per transaction until failure"),
          H("pq.VerifQueueFlushTail", "a flush that only rewrites the already assigned tail page (the added event may end exactly at the page end) meets a write/sync failure: error (no panic), retry succeeds, nothing lost or duplicated",
            "4 size pairs x 2 kinds x 3 ordinals x reopen"),
          H("pq.VerifQueueFault", "a flush / ACK whose transaction fails (injected write/sync failure, i.e. after the pages were allocated): error, the buffered events are kept and flushed by the retry, nothing lost or duplicated, counters exact",
